@@ -85,116 +85,116 @@ func (it *Interp) exec(fr *Frame, b *ssa.BasicBlock, prev *ssa.BasicBlock) Value
 
 // step executes one non-terminator instruction.
 func (it *Interp) step(fr *Frame, ins ssa.Instruction) {
-			switch ins := ins.(type) {
-			case *ssa.DebugRef:
-			case *ssa.Phi:
-				panic("phi after non-phi")
-			case *ssa.Alloc:
-				it.set(fr, ins, Value{Ref: newCell(ins.Type().Underlying().(*types.Pointer).Elem(), it.epoch)})
-			case *ssa.BinOp:
-				it.set(fr, ins, it.binop(ins.Op, ins.X.Type(), it.get(fr, ins.X), it.get(fr, ins.Y), ins.Y.Type()))
-			case *ssa.UnOp:
-				x := it.get(fr, ins.X)
-				switch ins.Op {
-				case token.MUL:
-					it.set(fr, ins, it.load(x))
-				case token.ARROW:
-					it.set(fr, ins, it.recv(x, ins.CommaOk, ins.X.Type()))
-				default:
-					it.set(fr, ins, it.unop(ins, x))
-				}
-			case *ssa.Store:
-				it.storePtr(it.get(fr, ins.Addr), it.get(fr, ins.Val))
-			case *ssa.Call:
-				it.set(fr, ins, it.doCall(fr, &ins.Call, nil))
-			case *ssa.Defer:
-				d := deferred{}
-				if ins.Call.IsInvoke() {
-					d.fn = it.get(fr, ins.Call.Value)
-					d.inv = &ins.Call
-				} else {
-					d.fn = it.get(fr, ins.Call.Value)
-				}
-				for _, a := range ins.Call.Args {
-					d.args = append(d.args, it.get(fr, a))
-				}
-				fr.defers = append(fr.defers, d)
-			case *ssa.RunDefers:
-				it.runDefers(fr)
-			case *ssa.Go:
-				it.goStmt(fr, &ins.Call)
-			case *ssa.Panic:
-				it.goPanicValue(it.get(fr, ins.X))
-			case *ssa.Extract:
-				tp := it.get(fr, ins.Tuple)
-				it.checkPoison(tp)
-				it.set(fr, ins, tp.Ref.(Tuple)[ins.Index])
-			case *ssa.Field:
-				x := it.get(fr, ins.X)
-				it.checkPoison(x)
-				ag, isAgg := x.Ref.(*Agg)
-				if !isAgg {
-					it.unsupported("field access on an opaque value of type " + typeStr(ins.X.Type()))
-				}
-				it.set(fr, ins, ag.v[ins.Field])
-			case *ssa.FieldAddr:
-				x := it.get(fr, ins.X)
-				c := it.cellOf(x)
-				it.set(fr, ins, Value{Ref: c.sub[ins.Field]})
-			case *ssa.Index:
-				it.set(fr, ins, it.indexValue(ins, it.get(fr, ins.X), it.get(fr, ins.Index)))
-			case *ssa.IndexAddr:
-				it.set(fr, ins, it.indexAddr(ins, it.get(fr, ins.X), it.get(fr, ins.Index)))
-			case *ssa.Lookup:
-				it.set(fr, ins, it.lookup(ins, it.get(fr, ins.X), it.get(fr, ins.Index)))
-			case *ssa.Slice:
-				it.set(fr, ins, it.sliceOp(fr, ins))
-			case *ssa.Convert:
-				it.set(fr, ins, it.convert(it.get(fr, ins.X), ins.X.Type(), ins.Type()))
-			case *ssa.ChangeType:
-				it.set(fr, ins, it.get(fr, ins.X))
-			case *ssa.ChangeInterface:
-				it.set(fr, ins, it.get(fr, ins.X))
-			case *ssa.MakeInterface:
-				it.set(fr, ins, Value{Ref: &Iface{t: ins.X.Type(), v: it.get(fr, ins.X)}})
-			case *ssa.TypeAssert:
-				it.set(fr, ins, it.typeAssert(ins, it.get(fr, ins.X)))
-			case *ssa.MakeSlice:
-				it.set(fr, ins, it.makeSlice(fr, ins))
-			case *ssa.MakeMap:
-				mt := ins.Type().Underlying().(*types.Map)
-				it.set(fr, ins, Value{Ref: &MapObj{kt: mt.Key(), vt: mt.Elem(), epoch: it.epoch}})
-			case *ssa.MapUpdate:
-				it.mapUpdate(it.get(fr, ins.Map), it.get(fr, ins.Key), it.get(fr, ins.Value))
-			case *ssa.MakeChan:
-				n := it.concInt(it.get(fr, ins.Size), ins.Size.Type())
-				ch := &ChanObj{cap: int(n), epoch: it.epoch}
-				it.chans = append(it.chans, ch)
-				it.set(fr, ins, Value{Ref: ch})
-			case *ssa.Send:
-				it.send(it.get(fr, ins.Chan), it.get(fr, ins.X))
-			case *ssa.MakeClosure:
-				c := &Closure{fn: ins.Fn.(*ssa.Function)}
-				for _, b := range ins.Bindings {
-					c.bind = append(c.bind, it.get(fr, b))
-				}
-				it.set(fr, ins, Value{Ref: c})
-			case *ssa.Range:
-				it.set(fr, ins, it.rangeStart(ins, it.get(fr, ins.X)))
-			case *ssa.Next:
-				it.set(fr, ins, it.rangeNext(ins, it.get(fr, ins.Iter)))
-			case *ssa.SliceToArrayPointer:
-				s, _ := it.get(fr, ins.X).Ref.(Slice)
-				at := ins.Type().Underlying().(*types.Pointer).Elem().Underlying().(*types.Array)
-				if int(at.Len()) > s.n {
-					it.goPanicRuntime(fmt.Sprintf("cannot convert slice with length %d to array or pointer to array with length %d", s.n, at.Len()))
-				}
-				it.set(fr, ins, Value{Ref: &Cell{agg: true, sub: s.c[:at.Len()], epoch: it.epoch, typ: at}})
-			case *ssa.Select:
-				it.unsupported("select statement")
-			default:
-				it.unsupported(fmt.Sprintf("instruction %T", ins))
-			}
+	switch ins := ins.(type) {
+	case *ssa.DebugRef:
+	case *ssa.Phi:
+		panic("phi after non-phi")
+	case *ssa.Alloc:
+		it.set(fr, ins, Value{Ref: newCell(ins.Type().Underlying().(*types.Pointer).Elem(), it.epoch)})
+	case *ssa.BinOp:
+		it.set(fr, ins, it.binop(ins.Op, ins.X.Type(), it.get(fr, ins.X), it.get(fr, ins.Y), ins.Y.Type()))
+	case *ssa.UnOp:
+		x := it.get(fr, ins.X)
+		switch ins.Op {
+		case token.MUL:
+			it.set(fr, ins, it.load(x))
+		case token.ARROW:
+			it.set(fr, ins, it.recv(x, ins.CommaOk, ins.X.Type()))
+		default:
+			it.set(fr, ins, it.unop(ins, x))
+		}
+	case *ssa.Store:
+		it.storePtr(it.get(fr, ins.Addr), it.get(fr, ins.Val))
+	case *ssa.Call:
+		it.set(fr, ins, it.doCall(fr, &ins.Call, nil))
+	case *ssa.Defer:
+		d := deferred{}
+		if ins.Call.IsInvoke() {
+			d.fn = it.get(fr, ins.Call.Value)
+			d.inv = &ins.Call
+		} else {
+			d.fn = it.get(fr, ins.Call.Value)
+		}
+		for _, a := range ins.Call.Args {
+			d.args = append(d.args, it.get(fr, a))
+		}
+		fr.defers = append(fr.defers, d)
+	case *ssa.RunDefers:
+		it.runDefers(fr)
+	case *ssa.Go:
+		it.goStmt(fr, &ins.Call)
+	case *ssa.Panic:
+		it.goPanicValue(it.get(fr, ins.X))
+	case *ssa.Extract:
+		tp := it.get(fr, ins.Tuple)
+		it.checkPoison(tp)
+		it.set(fr, ins, tp.Ref.(Tuple)[ins.Index])
+	case *ssa.Field:
+		x := it.get(fr, ins.X)
+		it.checkPoison(x)
+		ag, isAgg := x.Ref.(*Agg)
+		if !isAgg {
+			it.unsupported("field access on an opaque value of type " + typeStr(ins.X.Type()))
+		}
+		it.set(fr, ins, ag.v[ins.Field])
+	case *ssa.FieldAddr:
+		x := it.get(fr, ins.X)
+		c := it.cellOf(x)
+		it.set(fr, ins, Value{Ref: c.sub[ins.Field]})
+	case *ssa.Index:
+		it.set(fr, ins, it.indexValue(ins, it.get(fr, ins.X), it.get(fr, ins.Index)))
+	case *ssa.IndexAddr:
+		it.set(fr, ins, it.indexAddr(ins, it.get(fr, ins.X), it.get(fr, ins.Index)))
+	case *ssa.Lookup:
+		it.set(fr, ins, it.lookup(ins, it.get(fr, ins.X), it.get(fr, ins.Index)))
+	case *ssa.Slice:
+		it.set(fr, ins, it.sliceOp(fr, ins))
+	case *ssa.Convert:
+		it.set(fr, ins, it.convert(it.get(fr, ins.X), ins.X.Type(), ins.Type()))
+	case *ssa.ChangeType:
+		it.set(fr, ins, it.get(fr, ins.X))
+	case *ssa.ChangeInterface:
+		it.set(fr, ins, it.get(fr, ins.X))
+	case *ssa.MakeInterface:
+		it.set(fr, ins, Value{Ref: &Iface{t: ins.X.Type(), v: it.get(fr, ins.X)}})
+	case *ssa.TypeAssert:
+		it.set(fr, ins, it.typeAssert(ins, it.get(fr, ins.X)))
+	case *ssa.MakeSlice:
+		it.set(fr, ins, it.makeSlice(fr, ins))
+	case *ssa.MakeMap:
+		mt := ins.Type().Underlying().(*types.Map)
+		it.set(fr, ins, Value{Ref: &MapObj{kt: mt.Key(), vt: mt.Elem(), epoch: it.epoch}})
+	case *ssa.MapUpdate:
+		it.mapUpdate(it.get(fr, ins.Map), it.get(fr, ins.Key), it.get(fr, ins.Value))
+	case *ssa.MakeChan:
+		n := it.concInt(it.get(fr, ins.Size), ins.Size.Type())
+		ch := &ChanObj{cap: int(n), epoch: it.epoch}
+		it.chans = append(it.chans, ch)
+		it.set(fr, ins, Value{Ref: ch})
+	case *ssa.Send:
+		it.send(it.get(fr, ins.Chan), it.get(fr, ins.X))
+	case *ssa.MakeClosure:
+		c := &Closure{fn: ins.Fn.(*ssa.Function)}
+		for _, b := range ins.Bindings {
+			c.bind = append(c.bind, it.get(fr, b))
+		}
+		it.set(fr, ins, Value{Ref: c})
+	case *ssa.Range:
+		it.set(fr, ins, it.rangeStart(ins, it.get(fr, ins.X)))
+	case *ssa.Next:
+		it.set(fr, ins, it.rangeNext(ins, it.get(fr, ins.Iter)))
+	case *ssa.SliceToArrayPointer:
+		s, _ := it.get(fr, ins.X).Ref.(Slice)
+		at := ins.Type().Underlying().(*types.Pointer).Elem().Underlying().(*types.Array)
+		if int(at.Len()) > s.n {
+			it.goPanicRuntime(fmt.Sprintf("cannot convert slice with length %d to array or pointer to array with length %d", s.n, at.Len()))
+		}
+		it.set(fr, ins, Value{Ref: &Cell{agg: true, sub: s.c[:at.Len()], epoch: it.epoch, typ: at}})
+	case *ssa.Select:
+		it.unsupported("select statement")
+	default:
+		it.unsupported(fmt.Sprintf("instruction %T", ins))
+	}
 }
 
 // stepTolerant is used while running package initialisers: an instruction the
